@@ -329,6 +329,13 @@ func (s *SpecValidator) validateCircularAncestry(nm string, sch spec.Schema, kno
 		schn = sch.Ref.String()
 	}
 
+	if sch.Ref.String() != "" && schn == nm {
+		// the reference leads back to the schema it was found in: a definition inheriting from itself
+		ancs = append(ancs, schn)
+
+		return ancs, res
+	}
+
 	if schn != nm && schn != "" {
 		if _, ok := knowns[schn]; ok {
 			ancs = append(ancs, schn)
